@@ -3,7 +3,7 @@
    contract.py (conversions only).  No proofs in this file. *)
 From Coq Require Export String Ascii Arith ZArith Bool List.
 Export ListNotations.
-Open Scope string_scope.
+Local Open Scope string_scope.
 
 (* ---------- finite value types ---------- *)
 Inductive suit := Cl | Di | He | Sp.                     (* Suit.C D H S *)
